@@ -994,6 +994,116 @@ theorem hStageCompiled_spec (s : HState κ ι π ν) (v : State κ GroupV CompV 
             rw [ea]; exact hv.objs key
           · simp only [Option.map_some, dc]
 
+/-- a decode / encode up to wiring: the new message object reads as the value model's result, is
+    new, and everything it reaches has been allocated -/
+theorem hFetch_spec (s : HState κ ι π ν) (v : State κ GroupV CompV ι (MsgV π) ν) (c : Nat) (dir : Dir) (m : ι)
+    (hs : Sep s) (hv : Sim s v) :
+    Sep (hFetch H s c dir m).1 ∧ Sim (hFetch H s c dir m).1 (fetch H.toParams v c dir m).1 ∧
+    Keeps s (hFetch H s c dir m).1 ∧ (hFetch H s c dir m).1.objs = s.objs ∧
+    (match (hFetch H s c dir m).2 with
+     | .error e => (fetch H.toParams v c dir m).2 = .error e
+     | .ok o => (fetch H.toParams v c dir m).2 = .ok (derefMsg (hFetch H s c dir m).1.heap o).data ∧
+         (derefMsg (hFetch H s c dir m).1.heap o).nodes = [] ∧
+         (derefMsg (hFetch H s c dir m).1.heap o).isWired = false ∧
+         (∀ y : Nat, y ∈ footOf (hFetch H s c dir m).1.heap o → y < (hFetch H s c dir m).1.next) ∧
+         s.next ≤ o) := by
+  unfold hFetch fetch
+  have hh : H.toParams.header dir m = H.header dir m := rfl
+  rw [hh]
+  cases hhd : H.header dir m with
+  | error e => exact ⟨hs, hv, Keeps.refl s, rfl, rfl⟩
+  | ok kid =>
+    obtain ⟨k, ids⟩ := kid
+    simp only
+    obtain ⟨sep1, sim1, keep1, objs1, comp1, res1⟩ := hStageTables_spec H s v k hs hv
+    obtain ⟨r1, hr1⟩ : ∃ r, r = hStageTables H s k := ⟨_, rfl⟩
+    obtain ⟨w1, hw1⟩ : ∃ r, r = stageTables H.toParams v k := ⟨_, rfl⟩
+    rw [← hr1] at sep1 sim1 keep1 objs1 comp1 res1 ⊢
+    rw [← hw1] at sim1 res1 ⊢
+    cases hr12 : r1.2 with
+    | error e =>
+      rw [hr12] at res1
+      simp only at res1
+      rw [res1]
+      exact ⟨sep1, sim1, keep1, objs1, (by first | rfl | trivial)⟩
+    | ok g =>
+      rw [hr12] at res1
+      simp only at res1
+      obtain ⟨res1, groot⟩ := res1
+      rw [res1]
+      simp only
+      have hb : H.toParams.build (derefGroup r1.1.heap g) ids =
+          (H.buildIds (derefGroup r1.1.heap g) ids).map fun l => l.map (lookupD (derefGroup r1.1.heap g).b) := rfl
+      rw [hb]
+      cases hbi : H.buildIds (derefGroup r1.1.heap g) ids with
+      | error e =>
+        simp only [Except.map]
+        exact ⟨sep1, sim1, keep1, objs1, (by first | rfl | trivial)⟩
+      | ok tids =>
+        simp only [Except.map]
+        -- the Table C memo
+        obtain ⟨mv, mn, mt, mc, mo⟩ := hMemoC_spec r1.1 g ids
+        obtain ⟨s1, hs1⟩ : ∃ z, z = hMemoC r1.1 g ids := ⟨_, rfl⟩
+        rw [← hs1] at mv mn mt mc mo ⊢
+        have km : Keeps r1.1 s1 := keeps_of_view mv mn
+        have sepm : Sep s1 := sep_keeps sep1 km mt mc mo
+        have simm : Sim s1 w1.1 := sim_of_abs sim1 (abs_keeps sep1 km mt mc mo)
+        have gm : derefGroup s1.heap g = derefGroup r1.1.heap g := derefGroup_of_view mv g
+        have grootm : ∃ p ∈ s1.tables, p.2 = g := by rw [mt]; exact groot
+        obtain ⟨sep2, sim2, keep2, objs2, tabs2, res2⟩ :=
+          hStageCompiled_spec H s1 w1.1 c g (tids.map (lookupD (derefGroup r1.1.heap g).b)) ids k sepm simm grootm
+        rw [gm] at sim2 res2
+        obtain ⟨r2, hr2⟩ : ∃ r, r = hStageCompiled H s1 c g (tids.map (lookupD (derefGroup r1.1.heap g).b)) ids k := ⟨_, rfl⟩
+        obtain ⟨w2, hw2⟩ : ∃ r, r = stageCompiled H.toParams w1.1 c (derefGroup r1.1.heap g)
+            (tids.map (lookupD (derefGroup r1.1.heap g).b)) ids k := ⟨_, rfl⟩
+        rw [← hr2] at sep2 sim2 keep2 objs2 tabs2 res2 ⊢
+        rw [← hw2] at sim2 res2 ⊢
+        have k02 : Keeps s r2.1 := (keep1.trans km).trans keep2
+        have o02 : r2.1.objs = s.objs := by rw [objs2, mo, objs1]
+        cases hr22 : r2.2 with
+        | error e =>
+          rw [hr22] at res2
+          simp only at res2
+          rw [res2]
+          exact ⟨sep2, sim2, k02, o02, (by first | rfl | trivial)⟩
+        | ok oc =>
+          rw [hr22] at res2
+          simp only at res2
+          rw [res2]
+          simp only
+          have hp : H.toParams.process dir (derefGroup r1.1.heap g) (tids.map (lookupD (derefGroup r1.1.heap g).b))
+                (oc.map (derefComp r2.1.heap)) m =
+              (H.decode dir (derefGroup r1.1.heap g) (tids.map (lookupD (derefGroup r1.1.heap g).b))
+                (oc.map (derefComp r2.1.heap)) m).map fun x =>
+                { compressed := x.1, templ := tids.map (lookupD (derefGroup r1.1.heap g).b),
+                  subsets := subsetsOf (derefGroup r1.1.heap g) x.1 x.2.1 x.2.2.1, payload := x.2.2.2 } := rfl
+          rw [hp]
+          cases hdc : H.decode dir (derefGroup r1.1.heap g) (tids.map (lookupD (derefGroup r1.1.heap g).b))
+              (oc.map (derefComp r2.1.heap)) m with
+          | error e =>
+            simp only [Except.map]
+            exact ⟨sep2, sim2, k02, o02, (by first | rfl | trivial)⟩
+          | ok x =>
+            simp only [Except.map]
+            have groot2 : ∃ p ∈ r2.1.tables, p.2 = g := by rw [tabs2]; exact grootm
+            obtain ⟨pg, hpg, epg⟩ := groot2
+            have hbr : ∀ y : Nat, y ∈ (groupB r2.1.heap g).map (·.2) → y < r2.1.next := by
+              intro y hy
+              obtain ⟨q, hq, rfl⟩ := List.mem_map.1 hy
+              exact sep2.closed g (Or.inl ⟨pg, hpg, epg⟩) q.2 (foot_b hq)
+            have g2 : derefGroup r2.1.heap g = derefGroup r1.1.heap g := by
+              rw [← gm]
+              exact (keeps_root (sepm.closed g (Or.inl grootm)) keep2).1
+            obtain ⟨ka, ta, ca, oa, da, fa, na⟩ := hAllocMsg_spec r2.1 g tids x hbr
+            obtain ⟨a, ha⟩ : ∃ a, a = hAllocMsg r2.1 g tids x := ⟨_, rfl⟩
+            rw [← ha] at ka ta ca oa da fa na ⊢
+            rw [g2] at da
+            refine ⟨sep_keeps sep2 ka ta ca oa, sim_of_abs sim2 (abs_keeps sep2 ka ta ca oa), k02.trans ka,
+              by rw [oa, o02], ?_, ?_, ?_, fa, Nat.le_trans k02.1 na⟩
+            · rw [da]
+            · rw [da]
+            · rw [da]
+
 end Proc
 
 end Bufr.Heap
